@@ -399,5 +399,172 @@ fn main() {
             }
         }
     }
+    // ---- 8. extension X27: with_* observed / chained / commuting, (k * d) / d, division, scaling laws, PartialOrd -------
+    {
+        let mut r = Rng::new(seed * 2000 + 8);
+        let kinds = ["hour", "minute", "second", "nanosecond"];
+        let with = |tm: Time, kind: i64, v: u32| match kind { 0 => tm.with_hour(v), 1 => tm.with_minute(v), 2 => tm.with_second(v), _ => tm.with_nanosecond(v) };
+        // (a) with_* on times of day (and a few invalid receivers): the result and what its getters report
+        let mut ts: Vec<i64> = vec![0, 1, 999_999_999, 1_000_000_000, 59_999_999_999, 3_599_999_999_999, 3_600_000_000_000, 45_296_000_000_007,
+            86_398_999_999_999, 86_399_000_000_000, 86_399_999_999_999, 86_400_000_000_000, -1, -1_000_000_000, NAT, i64::MAX,
+            4_294_967_296_000_000_000 + 3_661_000_000_005, -4_294_880_896_000_000_000, -4_294_880_896_000_000_001, -4_294_967_296_000_000_000 + 5];
+        for _ in 0..(if thorough { 400 } else { 60 }) { ts.push(r.range(0, 86_399_999_999_999)) }
+        for &t in &ts {
+            let inr = (0..86_400_000_000_000).contains(&t);
+            for kind in 0..4i64 {
+                let lim: u32 = [24, 60, 60, 1_000_000_000][kind as usize];
+                let mut vs: Vec<u32> = vec![0, lim - 1, lim, r.range(0, lim as i64 - 1) as u32, r.range(0, lim as i64 - 1) as u32];
+                if kind == 3 { vs.extend([1_000_000_000, 1_500_000_000, 1_999_999_999, 2_000_000_000, u32::MAX]) } else { vs.push(u32::MAX) }
+                for v in vs {
+                    let class = if v < lim { "valid" } else if kind == 3 && v < 2_000_000_000 { "leap" } else { "out" };
+                    em.case("exact", &format!("fn=with_obs kind={} inrange={} v={}", kinds[kind as usize], inr, class),
+                        &format!("Time({}).with_{}({}) -> value, hour minute second nanosecond of the result", t, kinds[kind as usize], v),
+                        || format!("(r17_with_obs {} {} {})", z(t), kind, v), || {
+                        g(|| with(Time::from_i64(t), kind, v), |o| match o {
+                            None => vec![Cell::Null],
+                            Some(x) => {
+                                let mut c = vec![int(x.into_i64())];
+                                c.extend(gi(|| x.hour() as i64));
+                                c.extend(gi(|| x.minute() as i64));
+                                c.extend(gi(|| x.second() as i64));
+                                c.extend(gi(|| x.nanosecond() as i64));
+                                c
+                            }
+                        })
+                    });
+                }
+            }
+            // two setters in both orders (commutation; same kind twice = the last one wins on one side, the first on the other)
+            if inr {
+                for _ in 0..2 {
+                    let (k1, k2) = (r.range(0, 3), r.range(0, 3));
+                    let lim = |k: i64| [24i64, 60, 60, 1_000_000_000][k as usize];
+                    let (v1, v2) = (r.range(0, lim(k1) - 1) as u32, if r.chance(1, 6) { lim(k2) as u32 } else { r.range(0, lim(k2) - 1) as u32 });
+                    em.case("exact", &format!("fn=with_pair k1={} k2={} same={}", kinds[k1 as usize], kinds[k2 as usize], k1 == k2),
+                        &format!("Time({}): with_{}({}) then with_{}({}), and the other order", t, kinds[k1 as usize], v1, kinds[k2 as usize], v2),
+                        || format!("(r17_with_pair {} {} {} {} {})", z(t), k1, v1, k2, v2), || {
+                        let tm = Time::from_i64(t);
+                        let mut c = g(|| with(tm, k1, v1).and_then(|x| with(x, k2, v2)), |o| vec![opt_int(o.map(|x| x.into_i64()))]);
+                        c.extend(g(|| with(tm, k2, v2).and_then(|x| with(x, k1, v1)), |o| vec![opt_int(o.map(|x| x.into_i64()))]));
+                        c
+                    });
+                }
+            }
+        }
+        // (b) the four setters from midnight = from_hms_nano (spec cell), invalid components = None
+        let mut comps: Vec<(u32, u32, u32, u32)> = vec![(0, 0, 0, 0), (23, 59, 59, 999_999_999), (24, 0, 0, 0), (0, 60, 0, 0), (0, 0, 60, 0), (0, 0, 0, 2_000_000_000),
+            (0, 0, 0, 1_000_000_000), (23, 59, 59, 1_999_999_999), (12, 34, 56, 789)];
+        for _ in 0..(if thorough { 600 } else { 100 }) { comps.push((r.range(0, 23) as u32, r.range(0, 59) as u32, r.range(0, 59) as u32, r.range(0, 999_999_999) as u32)) }
+        for (h, m, s_, n) in comps {
+            let valid = h < 24 && m < 60 && s_ < 60 && n < 1_000_000_000;
+            em.case("exact", &format!("fn=with_chain valid={}", valid),
+                &format!("Time(0).with_hour({}).with_minute({}).with_second({}).with_nanosecond({}) vs Time::from_hms_nano", h, m, s_, n),
+                || format!("(r17_with_chain {} {} {} {})", h, m, s_, n), || {
+                let c = g(|| Time::from_i64(0).with_hour(h).and_then(|x| x.with_minute(m)).and_then(|x| x.with_second(s_)).and_then(|x| x.with_nanosecond(n)),
+                          |o| vec![opt_int(o.map(|x| x.into_i64()))]);
+                let mut cc = c.clone();
+                cc.extend(c);
+                cc
+            });
+        }
+        // (c) (d * k) / d  (spec cell k), d with and without months, k over the i32 range
+        let n = if thorough { 1500 } else { 300 };
+        for i in 0..n {
+            let m: i32 = match i % 4 { 0 | 1 => 0, 2 => r.range(-50, 50) as i32, _ => r.range(-1200, 1200) as i32 };
+            let ns: i128 = match i % 7 {
+                0 => r.range(-5, 5) as i128, 1 => mag_i64(&mut r) as i128, 2 => { let mk = (r.next() % 256) as u32; td_from_mask(&mut r, mk, 0).2 }
+                3 => r.range(-5_000_000_000_000, 5_000_000_000_000) as i128, 4 => if r.chance(1, 2) { 1 } else { -1 },
+                5 => mag_i64(&mut r) as i128 / 1_000_000, _ => r.range(1, 86_400) as i128 * 1_000_000_000,
+            };
+            let k: i32 = match i % 6 { 0 => 0, 1 => 1, 2 => -1, 3 => r.range(-1200, 1200) as i32, 4 => mag_i64(&mut r) as i32, _ => if r.chance(1, 2) { i32::MAX - r.range(0, 2) as i32 } else { i32::MIN + r.range(0, 2) as i32 } };
+            let fits = ns.checked_mul(k as i128).map_or(false, |p| p >= i64::MIN as i128 && p <= i64::MAX as i128);
+            em.case("exact", &format!("fn=muldiv months={} zero_ns={} k={} fits={}", m != 0, ns == 0, if k == 0 { "zero" } else if k.unsigned_abs() <= 1200 { "small" } else { "big" }, fits),
+                &format!("d = TimeDelta{{{},{}}}, k = {}: d * k, then (d * k) / d", m, ns, k),
+                || format!("(r17_muldiv {} {})", td_coq(m, ns), coq_z(k as i128)), || {
+                let d = td(m, ns);
+                g(|| d * k, |kd| { let mut c = td_cells(&kd); c.extend(gi(|| (kd / d) as i64)); c })
+            });
+        }
+        // (d) a / b on month-free operands (spec cell: truncated quotient), and every failure mode of the division
+        let mut divs: Vec<((i32, i128), (i32, i128), &str)> = vec![
+            ((i32::MIN, 0), (0, 1), "nat"), ((0, 1), (i32::MIN, 0), "nat"), ((i32::MIN, 5), (i32::MIN, 7), "nat"),
+            ((0, 5), (0, 0), "zero"), ((2, 0), (1, 0), "zero"), ((0, 0), (0, 0), "zero"), ((3, 7), (3, 0), "zero"), ((0, i64::MAX as i128 + 1), (0, 0), "huge"),
+            ((0, i64::MIN as i128), (0, -1), "min_neg1"), ((1, i64::MIN as i128), (1, -1), "min_neg1"), ((0, i64::MIN as i128), (0, 1), "limits"), ((0, i64::MAX as i128), (0, -1), "limits"),
+            ((0, i64::MAX as i128 + 1), (0, 1), "huge"), ((0, 1), (0, i64::MIN as i128 - 1), "huge"), ((0, DUR_MAX_NS), (0, -DUR_MAX_NS), "huge"),
+            ((0, 4_294_967_296), (0, 1), "wrap"), ((0, 2_147_483_648), (0, 1), "wrap"), ((0, -2_147_483_649), (0, 1), "wrap"), ((0, 2_147_483_647), (0, 1), "limits"), ((0, -2_147_483_648), (0, 1), "limits"),
+            ((4, 10), (2, 3), "months_mismatch"), ((4, 10), (2, 5), "months"), ((-6, -15), (2, 5), "months"), ((5, 4_294_967_298), (2, 1), "months_wrap"), ((7, 7), (7, 7), "months")];
+        for _ in 0..(if thorough { 600 } else { 120 }) {
+            let a = mag_i64(&mut r) as i128;
+            let b = match r.below(4) { 0 => r.range(-9, 9) as i128, 1 => mag_i64(&mut r) as i128, 2 => a / (r.range(1, 40) as i128), _ => r.range(-5_000_000_000_000, 5_000_000_000_000) as i128 };
+            divs.push(((0, a), (0, b), "monthfree"));
+        }
+        for (a, b, class) in divs {
+            em.case("exact", &format!("fn=div class={} sign={}", class, if (a.1 < 0) != (b.1 < 0) { "opposite" } else { "same" }),
+                &format!("TimeDelta{{{},{}}} / TimeDelta{{{},{}}}", a.0, a.1, b.0, b.1),
+                || format!("(r17_div {} {})", td_coq(a.0, a.1), td_coq(b.0, b.1)), || {
+                let c = gi(|| (td(a.0, a.1) / td(b.0, b.1)) as i64);
+                let mut cc = c.clone();
+                cc.extend(c);
+                cc
+            });
+        }
+        // (e) scaling laws: (j+k)d, jd+kd, (jk)d, j(kd), (-1)d, -d, 0d, 1d  — also for NaT d (NaT * 0 must stay NaT)
+        let n = if thorough { 1500 } else { 300 };
+        for i in 0..n {
+            let (m, ns): (i32, i128) = match i % 8 {
+                0 => (i32::MIN, [0i128, 5, -7][r.below(3)]), 1 => (0, 0), 2 => (r.range(-1200, 1200) as i32, 0), 3 => (0, mag_i64(&mut r) as i128),
+                4 => (if r.chance(1, 2) { i32::MAX - r.range(0, 3) as i32 } else { i32::MIN + 1 + r.range(0, 3) as i32 }, r.range(-5, 5) as i128),
+                5 => (r.range(-3, 3) as i32, if r.chance(1, 2) { DUR_MAX_NS - r.range(0, 3) as i128 } else { -DUR_MAX_NS + r.range(0, 3) as i128 }),
+                6 => { let mk = (r.next() % 1024) as u32; let (_, mo, ns) = td_from_mask(&mut r, mk, 0); (mo, ns) }
+                _ => (r.range(-1200, 1200) as i32, r.range(-1_000_000, 1_000_000) as i128 * 1_000_000_007),
+            };
+            let (j, k): (i32, i32) = loop {
+                let pick = |r: &mut Rng| -> i32 { match r.below(6) { 0 => 0, 1 => 1, 2 => -1, 3 => r.range(-40, 40) as i32, 4 => r.range(-46_000, 46_000) as i32, _ => mag_i64(r) as i32 } };
+                let (j, k) = (pick(&mut r), pick(&mut r));
+                if j.checked_add(k).is_some() && j.checked_mul(k).is_some() { break (j, k) }
+            };
+            em.case("exact", &format!("fn=scale nat={} months={} j0={} k0={}", m == i32::MIN, m != 0, j == 0, k == 0),
+                &format!("d = TimeDelta{{{},{}}}, j = {}, k = {}: (j+k)d jd+kd (jk)d j(kd) (-1)d -d 0d 1d", m, ns, j, k),
+                || format!("(r17_scale {} {} {})", td_coq(m, ns), coq_z(j as i128), coq_z(k as i128)), || {
+                let d = td(m, ns);
+                let mut c = vec![];
+                c.extend(gtd(|| d * (j + k)));
+                c.extend(gtd(|| d * j + d * k));
+                c.extend(gtd(|| d * (j * k)));
+                c.extend(gtd(|| (d * k) * j));
+                c.extend(gtd(|| d * -1));
+                c.extend(gtd(|| -d));
+                c.extend(gtd(|| d * 0));
+                c.extend(gtd(|| d * 1));
+                c
+            });
+        }
+        // (f) PartialOrd::partial_cmp both ways; From<Option<i64>>
+        let n = if thorough { 800 } else { 160 };
+        for i in 0..n {
+            let mk = |r: &mut Rng| -> (i32, i128) { match r.below(6) { 0 => (i32::MIN, r.range(-2, 2) as i128), 1 => (0, 0), 2 => (r.range(-3, 3) as i32, r.range(-3, 3) as i128),
+                3 => (0, mag_i64(r) as i128), 4 => (r.range(-1200, 1200) as i32, mag_i64(r) as i128), _ => (i32::MIN + 1, -DUR_MAX_NS) } };
+            let a = mk(&mut r);
+            let b = if i % 5 == 0 { a } else { mk(&mut r) };
+            em.case("exact", &format!("fn=cmp nat_l={} nat_r={} same_months={}", a.0 == i32::MIN, b.0 == i32::MIN, a.0 == b.0),
+                &format!("TimeDelta{{{},{}}}.partial_cmp(TimeDelta{{{},{}}}) and the reverse", a.0, a.1, b.0, b.1),
+                || format!("(r17_cmp {} {})", td_coq(a.0, a.1), td_coq(b.0, b.1)), || {
+                let (ta, tb) = (td(a.0, a.1), td(b.0, b.1));
+                let enc = |o: Option<std::cmp::Ordering>| vec![opt_int(o.map(|c| c as i64))];
+                let mut c = g(|| ta.partial_cmp(&tb), enc);
+                c.extend(g(|| tb.partial_cmp(&ta), enc));
+                c
+            });
+        }
+        for o in [None, Some(0i64), Some(1), Some(-1), Some(NAT), Some(NAT + 1), Some(i64::MAX), Some(86_399_999_999_999)] {
+            em.case("exact", &format!("fn=from_opt some={}", o.is_some()), &format!("Time::from({:?}), is_nat, TimeDelta::from({:?})", o, o),
+                || format!("(r17_from_opt {})", coq_opt(&o, |v| z(*v))), || {
+                let t: Time = o.into();
+                let mut c = vec![int(t.into_i64()), boolc(t.is_nat())];
+                c.extend(gtd(|| TimeDelta::from(o)));
+                c
+            });
+        }
+    }
     em.finish();
 }
